@@ -768,8 +768,94 @@ func findFuncDecl(f *ast.File, name string) *ast.FuncDecl {
 	return nil
 }
 
+// reloadOptions: the options CA.Reload passes, unconditionally, to the New that builds the
+// reloaded CA (an option appended under a condition, or a slice of options, shows as #…).
+func reloadOptions() string {
+	fset := token.NewFileSet()
+	f, err := parser.ParseFile(fset, filepath.Join(repoRoot(), "ca/ca.go"), nil, 0)
+	if err != nil {
+		return "#parse"
+	}
+	var fd *ast.FuncDecl
+	for _, d := range f.Decls {
+		if x, ok := d.(*ast.FuncDecl); ok && x.Name.Name == "Reload" && x.Recv != nil {
+			fd = x
+		}
+	}
+	if fd == nil {
+		return "#missing"
+	}
+	out := map[string]bool{}
+	found := false
+	ast.Inspect(fd.Body, func(n ast.Node) bool {
+		c, ok := n.(*ast.CallExpr)
+		if !ok || found {
+			return true
+		}
+		if id, isIdent := c.Fun.(*ast.Ident); !isIdent || id.Name != "New" { // the package's own New, not errors.New
+			return true
+		}
+		found = true
+		if c.Ellipsis.IsValid() {
+			out["#variadic"] = true
+		}
+		for _, a := range c.Args[1:] {
+			if oc, ok := a.(*ast.CallExpr); ok {
+				out[calleeName(oc)] = true
+			} else {
+				out["#"+exprString(a)] = true
+			}
+		}
+		return false
+	})
+	if !found {
+		return "#nonew"
+	}
+	return sortedSet(out)
+}
+
+// tokenIDs: for every provisioner type, how its GetTokenID can fail: the number of error returns
+// (parse error, claims error, …) and whether it may ask for the token to be reusable
+// (ErrAllowTokenReuse). Authority.UseToken records nothing when GetTokenID fails, so every way to
+// fail is a way for a token to stay usable.
+func tokenIDs() string {
+	out := map[string]bool{}
+	for _, f := range parseDir("authority/provisioner") {
+		for _, d := range f.Decls {
+			fd, ok := d.(*ast.FuncDecl)
+			if !ok || fd.Body == nil || fd.Recv == nil || fd.Name.Name != "GetTokenID" {
+				continue
+			}
+			rt := fd.Recv.List[0].Type
+			if st, ok := rt.(*ast.StarExpr); ok {
+				rt = st.X
+			}
+			errs, reuse := 0, ""
+			ast.Inspect(fd.Body, func(n ast.Node) bool {
+				r, ok := n.(*ast.ReturnStmt)
+				if !ok || len(r.Results) != 2 {
+					return true
+				}
+				if !isIdent(r.Results[1], "nil") {
+					errs++
+					if isIdent(r.Results[1], "ErrAllowTokenReuse") {
+						reuse = "+reuse"
+					}
+				}
+				return true
+			})
+			out[fmt.Sprintf("%s=%d%s", exprString(rt), errs, reuse)] = true
+		}
+	}
+	return sortedSet(out)
+}
+
 func srcOrder(fn string) string {
 	switch fn {
+	case "@tokenIDs":
+		return tokenIDs()
+	case "@reloadOptions":
+		return reloadOptions()
 	case "@routes":
 		return routes()
 	case "@hookControllers":
